@@ -178,7 +178,9 @@ static Plan gen_c06(uint64_t seed, const std::string &tier) {
         ExecOp e; e.api = (int)r.below(2); e.err = r.chance(1, 2) ? 2 : 13; e.ret = -1;
         e.path = "/p/" + m + "_" + gen_token(r, 0, 20, 0);
         if (r.chance(1, 4)) { static const char *pc[] = {"%s", "%m", "%%", "%d", "%20f", "%", "%5$s", "100%"}; e.path += pc[r.below(8)]; if (r.chance(1, 2)) e.path += gen_token(r, 0, 5, 0); }   // paths are data, never formats
+        bool empty_path = r.chance(1, 14); if (empty_path) e.path = "";   // execv("", ...) is a legal call too (it fails with ENOENT)
         int shape = (int)r.below(9);
+        if (empty_path && r.chance(1, 2)) shape = (int)r.below(2);
         if (shape == 0) e.argv_null = true;
         else if (shape == 1) {}
         else if (shape == 2) { e.argv0_null_hidden = true; e.argv = {m + "hid"}; }
@@ -225,7 +227,8 @@ static Verdict oracle_c06(const Plan &p, const RunResult &r) {
             DsVal cm = model_ds("cmdline", "", ctx);
             bool cfirst = e.cfg.message_format[0] == '%';
             std::string body = got; if (!body.empty() && body.back() == '\n') body.pop_back();
-            std::string part = cfirst ? body.substr(0, body.find("|/p/") == std::string::npos ? body.size() : body.find("|/p/")) : (body.find(" C=") == std::string::npos ? "" : body.substr(body.find(" C=") + 3));
+            std::string tail = "|" + cv.op->path;   // the path may be empty
+            std::string part = cfirst ? (cv.op->path.empty() && body.size() >= tail.size() && body.compare(body.size() - tail.size(), tail.size(), tail) == 0 ? body.substr(0, body.size() - tail.size()) : body.substr(0, body.find("|/p/") == std::string::npos ? body.size() : body.find("|/p/"))) : (body.find(" C=") == std::string::npos ? "" : body.substr(body.find(" C=") + 3));
             if (cm.text.compare(0, part.size(), part) != 0) return bad("cmdline-not-a-prefix", "call #" + std::to_string(cv.opi) + ": logged cmdline is not a prefix of the joined arguments: " + show(part, 100));
             if ((long)part.size() > e.cfg.dsmax + 0) return bad("datasource-over-limit", "call #" + std::to_string(cv.opi) + ": cmdline contributes " + std::to_string(part.size()) + " bytes, limit " + std::to_string(e.cfg.dsmax));
         }
@@ -349,9 +352,11 @@ static Plan gen_c14(uint64_t seed, const std::string &tier) {
         }
     }
     for (auto &it : items) { if (strtoull(it.c_str(), 0, 10) > 4294967295ULL) it = "4294967295"; if (it.size() > 1 && it[0] == '0') it = "5"; }
+    // decimal numerals may be written with leading zeros (010 is ten): such spellings of near misses, and below of the uid itself
+    for (int k = 0; k < 3; k++) if (r.chance(1, 3)) { uint32_t v = r.chance(1, 2) ? (uint32_t)r.range(8, 99) : (uint32_t)(w.uid + 1 + r.below(3)); if (v != w.uid) items.push_back(std::string(r.chance(1, 2) ? "0" : "00") + std::to_string(v)); }
     for (auto it = items.begin(); it != items.end();) { if ((uint32_t)strtoull(it->c_str(), 0, 10) == w.uid) it = items.erase(it); else ++it; }
     int pos = -1;
-    if (want_member) { pos = (int)r.below(items.size() + 1); if (r.chance(1, 3)) pos = (int)items.size(); items.insert(items.begin() + pos, us); if (r.chance(1, 4)) items.push_back(us); }
+    if (want_member) { pos = (int)r.below(items.size() + 1); if (r.chance(1, 3)) pos = (int)items.size(); items.insert(items.begin() + pos, r.chance(1, 6) ? "0" + us : us); if (r.chance(1, 4)) items.push_back(us); }
     if (items.empty()) items.push_back(std::to_string((uint32_t)(w.uid + 1)));
     std::string L; for (size_t i = 0; i < items.size(); i++) { if (i) L += ","; L += items[i]; }
     L = L.substr(0, 900); while (!L.empty() && L.back() == ',') L.pop_back();
